@@ -612,6 +612,14 @@ def check_cholesky(case, ctx):
     k = np.unravel_index(int(np.argmax(err)), err.shape)
     require(err[k] <= 1e-9 * scale, "%s: sample %r differs from mean + L.r = %r by %.3g (L = own Cholesky factor of %r)",
             name, out[k[0]].tolist(), [float(v) for v in expect[k[0]]], err[k], cov.tolist())
+    if case["api"] != "function":
+        # the caller keeps what he got: sampling the same object again (same size) must not change it
+        held = np.array(out, copy=True)
+        again = must(obj.sample, n) if n is not None else must(obj.sample)
+        again = np.asarray(again)
+        require(np.array_equal(np.asarray(out), held), "%s: the array returned by the first sample() call was overwritten by "
+                "the next sample() call on the same object", name)
+        require(len(rec.calls) == 2, "%s: the second sample() call did not draw new deviates", name)
 
 
 def classify_chol(case):
